@@ -26,7 +26,7 @@ MANIFEST = {
             "(PD formulas from Gen/PdTable.lean); utils.p_ase = EDFA's P_ase with f0 = c/wavelength, BW_opt = fs.  Tie: Float run of "
             "all formulas (Q at Float = series/continued-fraction erfc, compared with utils.Q) over the parameter box of the "
             "statement, scalar and vectorised; the integrand handed to scipy's quad is spied and compared point-wise.",
-    "note": "Oracle-only (PARTIAL): soft = Q(mu/sqrt(s0^2+s1^2)) for M=2 and soft <= hard for M>2 (Gaussian convolution / quad), true "
+    "note": "soft_M2 (theorem): for M=2 the soft-decision value on the exact integral is Q(mu/sqrt(s0^2+s1^2)). Oracle-only (PARTIAL): soft <= hard, true "
             "minimum at the midpoint (needs convexity of Q, not part of QSpec), monotone decrease of utils.theory_BER with received "
             "power, agreement with an independent scipy evaluation (norm.sf, fine grids).  quad's result is an input of the model. "
             "ER = inf is exercised at Float only (theorems hold for every real er). Axioms: propext, Classical.choice, Quot.sound.",
@@ -44,8 +44,9 @@ RULE = ("cases = Q points; (mu0,mu1,s0,s1) eyes with mu1-mu0 in (0,20*max s], eq
         "(S0 != S1, S0 == S1, arrays); device twins (PD spied sigmas, EDFA ASE power); error cells. non-trivial = a value was "
         "returned and compared; distinct by all parameters")
 PARTIAL = [
-    "ppm soft decision for M=2 equals Q(mu/sqrt(s0^2+s1^2)) and soft <= hard for every M: oracle against scipy (needs the Gaussian "
-    "convolution identity / properties of the numerical quadrature); the theorems cover the integrand's bounds and the post-processing",
+    "soft <= hard for every M: oracle against scipy. (soft = Q(mu/sqrt(s0^2+s1^2)) for M=2 IS a theorem now — soft_M2, via the "
+    "convolution of Gaussian laws — for the exact value of the integral; that scipy's quad returns that value to 1.5e-8 stays an "
+    "assumption checked by the oracle)",
     "for equal sigmas the true minimiser is the midpoint (so ook.theory_BER(mu,s,s) = Q(mu/2s) up to the grid error): needs convexity "
     "of Q, which QSpec does not contain; proved: value at the midpoint, symmetry of objective and grid, grid minimum >= infimum; "
     "oracle: |threshold - midpoint| <= half a grid step and value within the grid error of Q(mu/2s)",
